@@ -129,6 +129,11 @@ class P(Prop):
                         for mx in (True, False):
                             o, r = call(getattr(c, q), arg, mx)
                             cmp(q, o, r, {"ns": ns, "maximum": mx}, as_set=False)
+                # None selects every start-/endpoint of the circuit, an EMPTY collection selects nothing (K52)
+                for arg in ([], None, set()):
+                    for q in ("startpoints", "endpoints"):
+                        o, r = call(getattr(c, q), arg)
+                        cmp(q, o, r, {"ns": None if arg is None else []})
                 o, r = call(c.is_cyclic)
                 cmp("is_cyclic", o, r, as_set=False)
                 o, r = call(lambda: list(c.topo_sort()))
@@ -189,6 +194,9 @@ class P(Prop):
                                f"{'fanout' if fwd else 'fanin'}_depth({ns}) = {r if o == 'ok' else o}, longest path = {want}", {"ns": ns})
         if c.startpoints() != sp_all or c.endpoints() != ep_all:
             return bad("startpoints-endpoints-all", "startpoints()/endpoints()")
+        if c.startpoints([]) != set() or c.endpoints(set()) != set():
+            return bad("startpoints-endpoints-empty", "startpoints([]) / endpoints(set()): the start-/endpoints among NO nodes "
+                       f"are {sorted(c.startpoints([]))[:4]} / {sorted(c.endpoints(set()))[:4]}")
         if not cyc:
             order = list(c.topo_sort())
             pos = {n: i for i, n in enumerate(order)}
